@@ -289,6 +289,18 @@ def parse_model_json(s: str):
 # generators (constructor kwargs are JSON-able; {"__nd__": [...]} is revived to an ndarray)
 
 ELEMS = ["H", "He", "Li", "C", "N", "O", "F", "Ne", "Na", "S", "Cl", "Ar", "Fe", "Br"]
+HEAVY = ["I", "Xe", "Cs", "Ba", "Au", "Pb", "U", "Rn"]  # mass numbers >= 127 (drawn with p=0.12 per molecule)
+_ISOS = {}
+
+
+def isotopes_of(sym):
+    """mass numbers the periodic table knows for an element"""
+    if sym not in _ISOS:
+        from qcelemental import periodictable
+        import re as _re
+
+        _ISOS[sym] = sorted(int(k[len(sym):]) for k in periodictable._eliso2mass if _re.fullmatch(sym + r"\d+", k))
+    return _ISOS[sym]
 WORDS = ["", "a", "b3lyp", "cc-pVDZ", "x y", "é", "Q\"q", "line\nbreak", "0", "none"]
 
 
@@ -346,7 +358,8 @@ def gen_geom(rng, n):
 
 def gen_molecule(rng, nmax=7, minimal_p=0.15):
     n = rng.randint(1, nmax)
-    syms = [rng.choice(ELEMS) for _ in range(n)]
+    pool = ELEMS + HEAVY if rng.random() < 0.12 else ELEMS
+    syms = [rng.choice(pool) for _ in range(n)]
     pts = gen_geom(rng, n)
     form = rng.random()
     geom = [c for p in pts for c in p] if form < 0.5 else pts
@@ -367,6 +380,11 @@ def gen_molecule(rng, nmax=7, minimal_p=0.15):
         from qcelemental import periodictable
 
         kw["masses"] = [periodictable.to_mass(s) * rng.choice([1.0, 1.0, 1.001]) for s in syms]
+    elif rng.random() < 0.2:
+        # named isotopes (mass NUMBERS, masses derived by the library): any nuclide of the table, default or not
+        kw["mass_numbers"] = [rng.choice(isotopes_of(s)) if rng.random() < 0.6 else -1 for s in syms]
+        if all(a == -1 for a in kw["mass_numbers"]):
+            kw["mass_numbers"][0] = isotopes_of(syms[0])[-1]
     if n >= 2 and rng.random() < 0.4:
         bonds = set()
         for _ in range(rng.randint(1, min(4, n))):
@@ -390,6 +408,9 @@ def gen_molecule(rng, nmax=7, minimal_p=0.15):
         if rng.random() < 0.5:
             # neutral closed/open shell per fragment, consistent by construction: let qcel complete the rest
             kw["fragment_charges"] = [float(rng.choice([0, 0, 1, -1])) for _ in frs]
+            if rng.random() < 0.3:
+                # fractional fragment charges (their float sum is the molecular charge, whatever binary round-off it carries)
+                kw["fragment_charges"] = [rng.choice([0.1, 0.2, 0.7, -0.3, 0.25, -0.1, 0.0, 1.1]) for _ in frs]
     elif rng.random() < 0.3:
         kw["molecular_charge"] = rng.choice([0, 1, -1, 2.0])
     if rng.random() < 0.3:
